@@ -160,9 +160,32 @@ class CountingSeq(list):
     pass
 
 
+class PmfPolicy:
+    """a caller-written, stateless logging policy whose predict returns a PMF over the actions: coba (SafeLearner) then draws the
+    action with the generator seeded by the `seed` of `logged(learner, seed)` - the built-in learners draw with their own seed"""
+
+    def __init__(self, tilt=0.5):
+        self._tilt = tilt
+
+    @property
+    def params(self):
+        return {"family": "pmf_policy", "tilt": self._tilt}
+
+    def predict(self, context, actions):
+        n = len(actions)
+        if n == 1:
+            return [1.0]
+        return [self._tilt] + [(1 - self._tilt) / (n - 1)] * (n - 1)
+
+    def learn(self, context, action, reward, probability, **kwargs):
+        pass
+
+
 def make_learner(spec):
     from coba.learners import RandomLearner, FixedLearner, BanditEpsilonLearner, BanditUCBLearner
     k = spec.get("kind", "random")
+    if k == "pmf":
+        return PmfPolicy(spec.get("tilt", 0.5))
     if k == "random":
         return RandomLearner(spec.get("seed", 1))
     if k == "eps":
@@ -602,10 +625,15 @@ def g_ctx(rng, kind, width):
     if kind == "nestedcat":
         lv = ["lo", "mid", "hi"]
         return [[{"c": rng.choice(lv), "L": lv}, {"c": rng.choice(lv), "L": lv}], g_num(rng)]
+    if kind == "sparsecat":
+        # a plain dict row (keyed by feature index, or by name) that holds a Categorical: Finalize's Repr step has to copy it before encoding
+        lv = ["red", "green", "blue"]
+        ks = [0, 1, 2] if rng.chance(0.6) else [3, 7, 5]      # (string keys: EncodeCatRows raises KeyError on the first read - not readable at all)
+        return {"d": [[ks[0], g_num(rng)], [ks[1], {"c": rng.choice(lv), "L": lv}]] + ([[ks[2], g_num(rng)]] if rng.chance(0.4) else [])}
     raise ValueError(kind)
 
 
-CTX_KINDS = ["none", "value", "str", "dense", "dense", "densecat", "densenone", "tuple", "sparse", "sparse", "nested", "nestedcat"]
+CTX_KINDS = ["none", "value", "str", "dense", "dense", "densecat", "densenone", "tuple", "sparse", "sparse", "nested", "nestedcat", "sparsecat"]
 
 
 def g_lambda(rng, n):
@@ -676,7 +704,7 @@ def g_sup(rng, n):
     width = rng.randint(1, 3)
     lt = rng.choice(["c", "c", "c", "r", "m", None, None])
     if r < 30:
-        ck = rng.choice(["dense", "dense", "sparse", "value", "densecat", "densenone", "nestedcat"])
+        ck = rng.choice(["dense", "dense", "sparse", "value", "densecat", "densenone", "nestedcat", "sparsecat"])
         X = [g_ctx(rng, ck, width) for _ in range(n)]
         Y = g_labels(rng, n, lt or rng.choice(["c", "r"]), tricky_ok=True)
         shape = {"ctx": ck, "act": "empty" if (lt == "r" or (lt is None and Y and not isinstance(Y[0], str))) else "str", "width": width, "nact": 3,
@@ -691,7 +719,7 @@ def g_sup(rng, n):
             lt = "c"
             labs = g_labels(rng, n, "c", tricky_ok=True)
         if mode == "pairs":
-            ck = rng.choice(["dense", "sparse", "value"])
+            ck = rng.choice(["dense", "sparse", "value", "sparsecat"])
             if rng.chance(0.45):
                 via = "identity"              # a source object that OWNS its params dict
                 take = None if rng.chance(0.8) else take
@@ -986,7 +1014,7 @@ def g_step(rng, sh, want=None):
         if sh["logged"] or not disc or sh["batched"]:
             return None
         sh["logged"] = True
-        return {"m": m, "learner": {"kind": rng.choice(["random", "random", "eps", "ucb"]), "seed": rng.randint(0, 9)}, "a": [rng.choice([1.23, 1, 7, 2.5])]}, sh
+        return {"m": m, "learner": {"kind": rng.choice(["random", "random", "eps", "ucb", "pmf", "pmf"]), "seed": rng.randint(0, 9)}, "a": [rng.choice([1.23, 1, 7, 2.5, 0, 0, 0.0])]}, sh
     if m == "ope_rewards":
         if not sh["logged"]:
             return None
@@ -2067,6 +2095,74 @@ def compare_model(case, outs, model, where, I):
     return diffs
 
 
+
+# ----------------------------------------------------------------------------------------------
+# Phase 4: pipelines with fitting-window filters (Scale / Impute) PREDICTED on content by Model/C11 through Model/C04's
+# `fitDen` / `demTake`, and the aliasing model tied to Python object identities
+def fit_enc(v):
+    """feature value -> C11 JSON (exact rational of the float)"""
+    if v is None:
+        return None
+    if isinstance(v, str):
+        return {"s": v}
+    n, d = float(v).as_integer_ratio()
+    return [n, d]
+
+
+def fit_close(real, model):
+    if model is None or real is None:
+        return model is None and real is None
+    if isinstance(model, dict):
+        return isinstance(real, str) and real == model.get("s")
+    if isinstance(real, (str, bool)) or not isinstance(real, (int, float)):
+        return False
+    m = model[0] / model[1]
+    return abs(float(real) - m) <= 1e-9 * max(1.0, abs(m))
+
+
+def fit_stage_req(st):
+    if st["m"] == "scale":
+        shift, scale, _target, using = (st["a"] + [None] * 4)[:4]
+        return {"k": "scale", "shift": shift if isinstance(shift, str) else fit_enc(shift), "scale": scale if isinstance(scale, str) else fit_enc(scale),
+                "using": using, "target": "context"}
+    stat, ind, using = (st["a"] + [None] * 3)[:3]
+    return {"k": "impute", "stat": stat, "ind": bool(ind), "using": using}
+
+
+def fit_build(fc, upto=None):
+    """-> (Environments, caller-owned context list).  from_lambda hands out the caller's own context objects"""
+    from coba.environments import Environments
+    ctxs = [dv(c) for c in fc["ctxs"]]
+
+    def context(i):
+        return ctxs[i]
+
+    def actions(i, c):
+        return [1, 2, 3]
+
+    def reward(i, c, a):
+        return (a + i) % 3 / 2
+    envs = Environments.from_lambda(len(ctxs), context, actions, reward)
+    FIT_HOLDER[0] = None
+    for st in fc["chain"][:upto]:
+        if st["m"] in ("cache", "materialize"):
+            envs = getattr(envs, st["m"])()
+            FIT_HOLDER[0] = envs         # the pipeline that ends at the holder (shares the holder's pipe object with what follows)
+        elif st["m"] == "params":
+            envs = envs.params({"p": 1})
+        else:
+            envs = getattr(envs, st["m"])(*[dv(a) for a in st["a"]])
+    return envs, ctxs
+
+
+FIT_HOLDER = [None]
+
+
+def fit_ctx(it):
+    c = it["context"]
+    return list(c) if isinstance(c, (list, tuple)) else c
+
+
 class C04(Property):
     id = "C04"
     prop_modules = ["CobaVerif.Props.C04"]
@@ -2084,11 +2180,16 @@ class C04(Property):
             "collections of 2-3 different environments (shortcuts applied to the collection, sibling reads interleaved, every member is an object of the model's pool); "
             "supervised row sources may be an IdentitySource owning its params dict, optionally with a twin environment of another label type over the SAME source object; "
             "a small share (25% of multi-label string cases, 1% otherwise) is additionally unpickled and read in child interpreters with PYTHONHASHSEED 1,2,3; "
-            "3% are direct GroundedFeedback memo cases (1-110 instances x 2-4 arguments, 2-3 reads) compared word by word with the memo model")
+            "3% are direct GroundedFeedback memo cases (1-110 instances x 2-4 arguments, 2-3 reads) compared word by word with the memo model; "
+            "8% are fitting-window cases (from_lambda over caller-owned dyadic dense contexts, optionally held by cache()/materialize(), 1-4 Scale / Impute stages with "
+            "every shift / scale / statistic / window size, optional params / take, 3-6 full and abandoned reads): contexts of every read predicted by Model/C11 "
+            "(tolerance 1e-9 relative), delivered context OBJECTS compared by id() with the addresses of the aliasing model; "
+            "falsy seeds (0, 0.0) and caller-written PMF logging policies are generated for logged()")
     trusted_base = [
         "filters that rewrite interaction content (Repr, Flatten, Sparsify, Densify) and Finalize's stateless part are REAL functions in the driver (Model/C10 on the "
         "interaction content, which the harness encodes with C10's codec; contents are matched to interned interactions through their observables); "
-        "Scale / Impute / Noise / Cycle / Binary / Grounded / Logged / Batch / Unbatch stay item maps or tables taken from the code",
+        "Scale / Impute are REAL functions (Model/C11 through Model/C04.fitDen) in the fitting-window case family; in the general family they and "
+        "Noise / Cycle / Binary / Grounded / Logged / Batch / Unbatch stay item maps or tables taken from the code; statistics.stdev enters the driver as a 20-decimal root",
         "Densify(hashing): crc32 of the keys is computed by the harness; the C10 fix flags are detected on the tree under test by c10.detect_cfg()",
         "filters that select / order interactions (Take, Slice, Shuffle, Riffle, Reservoir, Sort, Where) are REAL functions in the driver (Model/C09, seeds through "
         "Model/C05; Reservoir's float formulas are evaluated on IEEE doubles in the driver); item-wise rewriting filters enter as their item->item map, the remaining "
@@ -2102,6 +2203,11 @@ class C04(Property):
                    "interleaved reads of two pipelines that share an unfinished Cache are treated like concurrent reads (outside the property)",
                    "time-seeded filters (seed None) excluded"]
     partial_theorems = {
+        "no_stage_writes_input_general": "hypothesis: no stage writes into the objects it is handed (alloc / share / pick only); fit_inplace_counterexample shows it is necessary for "
+                                         "Scale written back into held contexts; fit_stages_do_not_write discharges it for Scale / Impute / Noise as modelled",
+        "fit_kept_iterator_partial": "a stage keeping ONE upstream iterator between reads agrees with the real stage only until something has been pulled; "
+                                     "fit_kept_iterator_counterexample shows the divergence; the real stage is covered at full strength by fit_stage_reads / fit_pipeline_reads",
+        "fit_pipeline_reads": "hypothesis hde: interning contents is faithful (dec (enc c) = c)",
         "no_stage_writes_input": "hypothesis: no stage of the pipeline writes into the objects it receives (writesInput = false for every stage); "
                                  "inplace_stage_counterexample shows it is necessary; second_read_same additionally needs the held addresses to exist in the store",
         "collection_members_independent": "needs one pipe object per member (objects of the pool own their nodes); shared_cache_counterexample shows a shared Cache breaks it; "
@@ -2129,6 +2235,8 @@ class C04(Property):
     def generate(self, rng, tier):
         if rng.chance(0.03):
             return self.gen_memo(rng, rng.chance(0.4))
+        if rng.chance(0.08):
+            return self.gen_fit(rng)
         src, sh = g_source(rng)
         chain, sh2 = g_chain(rng, sh)
         case = {"src": src, "chain": chain}
@@ -2169,8 +2277,8 @@ class C04(Property):
         # "after pickling": a small share is also read in other interpreters (other string-hash seeds), mostly where set/dict order could show
         ms = member_src(case)
         hashy = ms["kind"].startswith("sup") and ms.get("label_type") == "m"
-        if rng.chance(0.25 if hashy else 0.01):
-            case["xproc"] = True
+        if rng.chance(0.25 if hashy else 0.01) and not any(st.get("learner", {}).get("kind") == "pmf" for st in chain):
+            case["xproc"] = True        # (a harness-defined policy class cannot be unpickled by a bare child interpreter)
         return case
 
     def search(self, rng, tier):
@@ -2351,6 +2459,54 @@ class C04(Property):
         # synthetic constructors with a missing feature group, reward features given by the caller or left to the default
         for nc, nf, rf in ((0, 2, None), (0, 2, ["a", "xa"]), (2, 0, ["x", "xa"]), (2, 0, None), (0, 0, None), (2, 2, None), (0, 3, ["xa", "xxa", "a"])):
             cs.append({"src": dict(lin, n_ctx=nc, n_act=nf, rf=rf), "chain": [], "hist": [par, part(1), par, full, par, full]})
+        # ---- round g (pinned, independent of the random stream)
+        # (g1) falsy-but-legal seeds (0, 0.0) wherever a shortcut / constructor accepts a seed: `seed or default` turns them into the default or the clock
+        lin12 = dict(lin, n=12, n_actions=4)
+        for z in (0, 0.0):
+            for lk in ("pmf", "eps"):
+                cs.append({"src": lin12, "chain": [{"m": "logged", "learner": {"kind": lk, "seed": 0}, "a": [z]}], "hist": [full, full, part(3), full, par]})
+            cs.append({"src": lin12, "chain": [{"m": "logged", "learner": {"kind": "pmf", "tilt": 0.25}, "k": {"seed": z}}, {"m": "shuffle", "a": [0]}], "hist": [full, part(2), full, par]})
+            cs.append({"src": lin12, "chain": [{"m": "logged", "learner": {"kind": "pmf"}, "a": [z]}, {"m": "cache"}], "hist": [full, {"op": "pickle", "on": 0}, {"op": "full", "on": 1}, full]})
+            for st in ({"m": "shuffle", "a": [z]}, {"m": "shuffle", "k": {"seed": z}}, {"m": "riffle", "a": [2, z]}, {"m": "reservoir", "a": [5, z, False]},
+                       {"m": "noise", "k": {"context": {"t": ["i", 0, 2]}, "reward": {"t": ["i", 0, 1]}, "seed": z}}, {"m": "grounded", "a": [3, 2, 4, 2, z]}):
+                if isinstance(z, float) and st["m"] in ("shuffle", "reservoir", "grounded"):
+                    continue        # these demand an int seed (ValueError / TypeError on construction)
+                cs.append({"src": lin12, "chain": [st], "hist": [full, part(3), full, {"op": "pickle", "on": 0}, {"op": "full", "on": 1}, par]})
+            cs.append({"src": dict(lin12, seed=z), "chain": [], "hist": [full, part(3), full, par]})
+            cs.append({"src": dict(lam, n=12, seed=z), "chain": [], "hist": [full, part(3), full, par]})
+        cs.append({"src": {"kind": "bandit", "n": 12, "n_actions": 3, "seed": 0}, "chain": [], "hist": [full, part(3), full, par]})
+        # (g3) ONE large grounded environment: 2100 interactions x 4 actions = 8400 feedback evaluations per read, feedback objects held by a cache
+        huge = dict(lam, n=2100, acts=[["x", "y", "z", "w"]], rwds=[[1, 0, 0.5, 0.25], [0, 1, 0.25, 0.5]])
+        cs.append({"src": huge, "chain": [{"m": "grounded", "a": [4, 2, 5, 2, 3]}, {"m": "materialize"}], "hist": [full, part(3), full]})
+        # (g4) plain dict rows (int keys / str keys) holding a Categorical, owned by the CALLER: X of from_supervised(X,Y), rows of a ListSource,
+        # contexts handed out by a lambda; an abandoned read first (the first row decides whether anything is encoded), then complete reads
+        lvc = ["red", "green", "blue"]
+        for keys in ((0, 1), (7, 3)):
+            Xd = [{"d": [[keys[0], float(i)], [keys[1], {"c": lvc[i % 3], "L": lvc}]]} for i in range(12)]
+            Yd = ["ab"[i % 2] for i in range(12)]
+            sxy = {"kind": "sup_xy", "X": Xd, "Y": Yd, "label_type": "c"}
+            cs.append({"src": sxy, "chain": [], "hist": [part(4), full, full, par]})
+            cs.append({"src": sxy, "chain": [], "hist": [full, full, par]})
+            cs.append({"src": sxy, "chain": [{"m": "cache"}], "hist": [part(4), full, {"op": "pickle", "on": 0}, {"op": "full", "on": 1}, full]})
+            cs.append({"src": sxy, "chain": [{"m": "repr", "a": ["onehot_tuple", "onehot"]}], "hist": [part(1), full, full]})
+            cs.append({"src": {"kind": "sup_rows", "via": "list", "rows": [{"t": [Xd[i], Yd[i]]} for i in range(12)], "label_col": None, "label_type": "c", "take": None},
+                       "chain": [], "hist": [part(4), full, full]})
+            cs.append({"src": dict(lam, n=8, ctxs=Xd[:3]), "chain": [], "hist": [part(2), full, full]})
+            cs.append({"src": dict(lam, n=8, ctxs=Xd[:3]), "chain": [{"m": "materialize"}, {"m": "shuffle", "a": [2]}], "hist": [part(2), full, full]})
+        # sparse ACTIONS holding a Categorical (caller-owned dicts handed out by the lambda)
+        cs.append({"src": dict(lam, n=8, acts=[[{"d": [[0, 1.0], [1, {"c": c, "L": lvc}]]} for c in lvc]], rwds=[[1, 0, 0.5]]), "chain": [], "hist": [part(2), full, full]})
+        # ---- phase 4: pipelines with fitting-window filters predicted on content (Model/C11 through fitDen), identities through GStage
+        fctx = [[1, 3.5], [2, -4], [4, 0.5], [8, 6], [-3, 2.25], [0.5, 7]]
+        fnone = [[1, 3.5], [None, -4], [4, None], [8, 6], [None, 2.25], [0.5, 7]]
+        fh = [{"op": "full"}, {"op": "partial", "k": 1}, {"op": "full"}, {"op": "partial", "k": 4}, {"op": "full"}]
+        for hold in ([], [{"m": "cache"}], [{"m": "materialize"}]):
+            for sc in (["min", "minmax", "context", None], [1, 2, "context", None], ["mean", "std", "context", 3], ["med", "iqr", "context", 2], [0, "maxabs", "context", 4], [-2, 0.5, "context", 1]):
+                cs.append({"fit": {"ctxs": fctx, "chain": hold + [{"m": "scale", "a": sc}], "hist": fh}})
+            for im in (["mean", True, None], ["median", False, 3], ["mode", True, 2], ["mean", False, None]):
+                cs.append({"fit": {"ctxs": fnone, "chain": hold + [{"m": "impute", "a": im}], "hist": fh}})
+            cs.append({"fit": {"ctxs": fnone, "chain": hold + [{"m": "impute", "a": ["mean", True, 3]}, {"m": "scale", "a": [1, 2, "context", 2]}, {"m": "params"}, {"m": "scale", "a": ["min", "minmax", "context", None]}], "hist": fh}})
+            cs.append({"fit": {"ctxs": fctx, "chain": hold + [{"m": "scale", "a": [1, 2, "context", 2]}, {"m": "take", "a": [4]}], "hist": fh}})
+            cs.append({"fit": {"ctxs": fctx, "chain": hold + [{"m": "params"}, {"m": "take", "a": [3]}], "hist": fh}})
         # empty environments (EmptyCheck), densify lookup
         cs.append({"src": dict(lin, n=0), "chain": [], "hist": [full, full, par, {"op": "materialize", "on": 0}, {"op": "full", "on": 1}]})
         cs.append({"src": lin, "chain": [{"m": "take", "a": [0, False]}], "hist": [full, part(1), full]})
@@ -2391,6 +2547,144 @@ class C04(Property):
         tags += ["covered:shortcuts:%d" % len([n for n in shortcuts() if n in HANDLED_SHORTCUTS])]
         return {"fails": fails, "nontrivial": True, "tags": tags, "impl": {"seed": seed}}
 
+    def gen_fit(self, rng):
+        n = rng.choice([1, 2, 3, 4, 5, 6, 8, 12])
+        w = rng.randint(1, 3)
+        impute = rng.chance(0.45)
+        ctxs = []
+        for i in range(n):
+            row = [rng.randint(-16, 24) / rng.choice([1, 2, 4]) for _ in range(w)]
+            if impute and i > 0 and rng.chance(0.4):
+                row[rng.randint(0, w - 1)] = None
+            ctxs.append(row)
+        chain = []
+        if rng.chance(0.6):
+            chain.append({"m": rng.choice(["cache", "materialize"])})
+        for _ in range(rng.choice([1, 1, 2, 3])):
+            using = rng.choice([None, None, 1, 2, 3, n, n + 2])
+            if impute and rng.chance(0.7):
+                chain.append({"m": "impute", "a": [rng.choice(["mean", "median", "mode"]), rng.chance(0.5), using]})
+            else:
+                if rng.chance(0.35):
+                    chain.append({"m": "impute", "a": ["mean", False, None]}) if impute and not any(st["m"] == "impute" for st in chain) else None
+                chain.append({"m": "scale", "a": [rng.choice(["min", "mean", "med", 0, 1, -2, 0.5]), rng.choice(["minmax", "std", "iqr", "maxabs", 2, 0.5, 1]), "context", using]})
+        if rng.chance(0.3):
+            chain.insert(rng.randint(1, len(chain)) if chain[0]["m"] in ("cache", "materialize") else len(chain), {"m": "params"})
+        if rng.chance(0.3):
+            chain.append({"m": "take", "a": [rng.choice([0, 1, 2, n - 1, n, n + 1])]})
+        hist = []
+        for _ in range(rng.randint(2, 5)):
+            hist.append({"op": "full"} if rng.chance(0.5) else {"op": "partial", "k": rng.choice([0, 1, 2, 3, n - 1, n, n + 1])})
+        hist.append({"op": "full"})
+        return {"fit": {"ctxs": ctxs, "chain": chain, "hist": [h if h.get("k", 0) >= 0 else {"op": "partial", "k": 0} for h in hist]}}
+
+    def fit_case(self, case, driver):
+        """a from_lambda environment over caller-owned dense contexts -> [cache|materialize] -> Scale / Impute stages [-> params / take]:
+        (B) every full read equals the first read of a freshly built pipeline, an abandoned read is its prefix, the caller's contexts and the
+        contexts the holder hands out are unchanged; (A) the CONTEXTS of every read are the ones Model/C11 computes (`fitDen`, `demTake`),
+        and which delivered context objects ARE held objects / new objects is what the aliasing model (`GStage`) says"""
+        quiet()
+        fc = case["fit"]
+        chain = fc["chain"]
+        fails, tags = [], ["fit-case", "fit-stages:%d" % sum(1 for st in chain if st["m"] in ("scale", "impute"))]
+        tags += ["fit:" + st["m"] for st in chain]
+        try:
+            ref = [cint(i) for i in fit_build(fc)[0][0].read()]
+            refctx = [fit_ctx(i) for i in fit_build(fc)[0][0].read()]
+        except BaseException as e:
+            if not trappable(e):
+                raise
+            return {"fails": [], "nontrivial": False, "tags": tags + ["ref-raises:" + errname(e)], "impl": {"err": errname(e)}}
+        envs, ctxs = fit_build(fc)
+        before = cjson(cv(ctxs))
+        env = envs[0]
+        reads = []
+        for n_op, h in enumerate(fc["hist"]):
+            try:
+                if h["op"] == "full":
+                    got = list(env.read())
+                    seq, want, kind = [cint(i) for i in got], ref, "full"
+                else:
+                    it = iter(env.read())
+                    got = []
+                    for _ in range(h["k"]):
+                        try:
+                            got.append(next(it))
+                        except StopIteration:
+                            break
+                    del it
+                    gc.collect()
+                    seq, want, kind = [cint(i) for i in got], ref[:h["k"]], "partial"
+            except BaseException as e:
+                if not trappable(e):
+                    raise
+                fails.append(F("B", "read %d (%s) of a pipeline with fitting-window filters %s raises %s: %s although the first read of a freshly built identical pipeline succeeds"
+                               % (n_op, h["op"], [st["m"] for st in chain], errname(e), str(e)[:100]), "read-raises:fit:" + errname(e)))
+                break
+            reads.append([fit_ctx(i) for i in got])
+            if seq != want:
+                fails.append(F("B", "read %d (%s) of a pipeline with fitting-window filters %s differs from the read of a freshly built identical pipeline: "
+                                    "contexts %s instead of %s" % (n_op, kind, [st["m"] for st in chain], str(reads[-1])[:120], str(refctx[:len(seq) or 1])[:120]),
+                               "%s-differs:fit:%s" % (kind, diffkind(seq, want, prefix=False))))
+                break
+        if cjson(cv(ctxs)) != before:
+            fails.append(F("B", "reading changed the context objects the caller's lambda hands out: %s -> %s" % (before[:100], cjson(cv(ctxs))[:100]), "source-modified:fit.ctxs"))
+        # the objects a holder hands out, by identity: unchanged by reads of the whole pipeline
+        hold = max([i for i, st in enumerate(chain) if st["m"] in ("cache", "materialize")], default=None)
+        pattern = None
+        if hold is not None and refctx:
+            envs2, _ = fit_build(fc)
+            henv, hpipe = envs2[0], FIT_HOLDER[0]
+            try:
+                held = [i["context"] for i in hpipe[0].read()]
+                held2 = [i["context"] for i in hpipe[0].read()]
+                if len(held) == len(held2) and all(a is b for a, b in zip(held, held2)) and all(isinstance(c, list) for c in held):
+                    snap = cjson(cv(held))
+                    out1 = [i["context"] for i in henv.read()]
+                    out2 = [i["context"] for i in henv.read()]
+                    if cjson(cv(held)) != snap:
+                        fails.append(F("B", "reading the pipeline %s changed the contexts held by %s(): %s -> %s" % ([st["m"] for st in chain], chain[hold]["m"], snap[:100], cjson(cv(held))[:100]),
+                                       "held-data-modified:fit:" + chain[hold]["m"]))
+                    ids = {id(c): j for j, c in enumerate(held)}
+                    pattern = [[ids.get(id(c)) for c in out] for out in (out1, out2)]
+                    tags.append("alias-id:observed")
+                else:
+                    tags.append("alias-id:holder-hands-out-fresh-objects")
+            except BaseException as e:
+                if not trappable(e):
+                    raise
+                tags.append("alias-id:not-run:" + errname(e))
+        model = None
+        if driver is not None and not fails:
+            stages = [st for st in chain if st["m"] in ("scale", "impute")]
+            take = [st["a"][0] for st in chain if st["m"] == "take"]
+            dense = all(isinstance(c, list) for c in ctxs)
+            if dense and (not take or chain[-1]["m"] == "take"):
+                req = {"fit": {"kind": "dense", "rows": [[fit_enc(v) for v in c] for c in ctxs], "stages": [fit_stage_req(st) for st in stages],
+                               "reads": ["all" if h["op"] == "full" else h["k"] for h in fc["hist"]]}}
+                model = driver.ask(req)
+                for n_op, (h, real, mod) in enumerate(zip(fc["hist"], reads, model["reads"])):
+                    rows = mod["rows"][:take[0]] if take else mod["rows"]
+                    ok = len(rows) == len(real) and all(isinstance(r, list) and len(r) == len(m) and all(fit_close(x, y) for x, y in zip(r, m)) for r, m in zip(real, rows))
+                    if not ok:
+                        fails.append(F("A", "read %d (%s): the contexts delivered through %s differ from Model/C11's prediction: real %s, model %s"
+                                       % (n_op, h["op"], [st["m"] + str(st.get("a", "")) for st in chain], str(real)[:160], str([[None if v is None else v[0] / v[1] for v in r] for r in rows])[:160]), "A:fit-content"))
+                        break
+                else:
+                    tags.append("A:fit-content-model")
+            if pattern is not None and hold is not None:
+                st_req = ["share"]
+                for st in chain[hold + 1:]:
+                    st_req.append("alloc" if st["m"] in ("scale", "impute") else {"take": st["a"][0]} if st["m"] == "take" else "share")
+                ans = driver.ask({"galias": {"n": len(ctxs), "stages": st_req}})
+                if [ans["pattern1"], ans["pattern2"]] != pattern or not ans["heldUnchanged"]:
+                    fails.append(F("A", "object identities: through %s the delivered contexts are held objects / new objects %s (two reads), the aliasing model says %s"
+                                   % ([st["m"] for st in chain], pattern, [ans["pattern1"], ans["pattern2"]]), "A:alias-identities"))
+                else:
+                    tags.append("A:alias-identities-model")
+        nontrivial = len(ref) > 0 and any(h["op"] == "partial" for h in fc["hist"][:-1]) or len(fc["hist"]) >= 2 and len(ref) > 0
+        return {"fails": fails, "nontrivial": nontrivial, "tags": tags, "impl": {"reads": [str(r)[:80] for r in reads]}, "model": model and {"pulled": model.get("pulled")}}
+
     def memo_case(self, case, driver):
         """`Grounded.GroundedFeedback` instances evaluated directly: (B) re-evaluating the pairs of a read gives the words of the
         first time; (A) the words are the ones the memo model draws (CobaRandom(seed).choice through Model/C05)"""
@@ -2430,6 +2724,8 @@ class C04(Property):
             return self.witness(case)
         if "memo" in case:
             return self.memo_case(case, driver)
+        if "fit" in case:
+            return self.fit_case(case, driver)
         fails = []
         msrc = member_src(case)
         tags = ["src:" + msrc["kind"] + (":" + msrc.get("fmt", msrc.get("via", "")) if msrc["kind"] in ("sup_file", "sup_rows", "result") else "")]
@@ -2636,6 +2932,16 @@ class C04(Property):
     def shrink(self, case):
         if "witness" in case or "memo" in case:
             return
+        if "fit" in case:
+            fc = case["fit"]
+            for k in range(len(fc["hist"])):
+                if len(fc["hist"]) > 1:
+                    yield {"fit": dict(fc, hist=fc["hist"][:k] + fc["hist"][k + 1:])}
+            for k in range(len(fc["chain"])):
+                yield {"fit": dict(fc, chain=fc["chain"][:k] + fc["chain"][k + 1:])}
+            if len(fc["ctxs"]) > 1:
+                yield {"fit": dict(fc, ctxs=fc["ctxs"][:-1])}
+            return
         hist = case["hist"]
         chain = case.get("chain", [])
         for k in range(len(hist)):
@@ -2676,6 +2982,16 @@ class C04(Property):
             return "see Props/C04.lean shuffle_abandon_counterexample"
         if "memo" in case:
             return "see harness/props/c04.py C04.memo_case (Grounded.GroundedFeedback instances evaluated directly)"
+        if "fit" in case:
+            fc = case["fit"]
+            calls = "".join(".%s(%s)" % (st["m"], "{'p':1}" if st["m"] == "params" else ", ".join(repr(dv(a)) for a in st.get("a", []))) for st in fc["chain"])
+            return ("import sys; sys.path.insert(0, '/repo')\nfrom coba.environments import Environments\n"
+                    "ctxs = %r\nmake = lambda: Environments.from_lambda(len(ctxs), lambda i: ctxs[i], lambda i, c: [1, 2, 3], lambda i, c, a: (a + i) %% 3 / 2)%s[0]\n"
+                    "ref = [i['context'] for i in make().read()]\nenv = make()\n"
+                    "for h in %r:\n"
+                    "    it = iter(env.read()); got = [i['context'] for i in (it if h['op'] == 'full' else (x for _, x in zip(range(h['k']), it)))]; del it\n"
+                    "    print(h, 'same as a fresh read' if got == (ref if h['op'] == 'full' else ref[:h['k']]) else ('DIFFERENT', got))\n"
+                    "print('caller contexts now:', ctxs)\n" % ([dv(c) for c in fc["ctxs"]], calls, fc["hist"]))
         return ("import sys, json, tempfile; sys.path[:0] = ['/repo', '/verif/harness']\n"
                 "from props import c04\ncase = json.loads(%r)\nc04.quiet(); tmp = tempfile.mkdtemp()\n"
                 "ref, refp = c04.reference(case, tmp)\nouts, before, after = c04.run_history(case, tmp)\n"
